@@ -125,6 +125,74 @@ def run(ctx):
                 skip_flag = enums.get(e_['id'])
     ctx.require(skip_flag is not None, 'FormatDataFlags::SKIP_STRINGS not found')
 
+    # ---- R6 round trip by evaluation (E-TABLE): the text the formatter produces for a byte string is
+    with ctx.section('C09-R6', 'C09'):
+        # parsed back to that byte string (and, with a mask, to that mask) - all single bytes, all pairs
+        # over class representatives (all 65536 pairs in the thorough tier), masks over every position
+        R = 'C09-R6'
+        Pfull = next((f_ for f_ in u.func('phosg::parse_data_string') if len(params_of(f_)) == 3 and body_of(f_) is not None and 'char' not in (qtype(params_of(f_)[0]) or '').split('basic_string')[0].split('string')[0]), None)
+        Fmask = F
+        r6 = {'ok': 0, 'bad': None, 'und': None}
+
+        def round_trip(bs, mask=None, flags=0):
+            if r6['und']:
+                return
+            try:
+                r = PE.call_with(Fmask, [Lit(bytes(bs)), len(bs), Lit(bytes(mask)) if mask is not None else None, flags])
+                txt = bytes(r.b)
+                mout = Str() if mask is not None else None
+                back = PE.call_with(Pfull, [Str(txt), mout, 0])
+            except Fault as e:
+                r6['bad'] = r6['bad'] or (bytes(bs), mask, 'evaluation faults: %s' % e)
+                return
+            except Thrown as e:
+                r6['bad'] = r6['bad'] or (bytes(bs), mask, 'the parser throws on the formatter\'s own text (%s)' % e)
+                return
+            except Undecided as e:
+                r6['und'] = str(e)
+                return
+            got = bytes(back.b) if isinstance(back, Str) else None
+            if got != bytes(bs):
+                r6['bad'] = r6['bad'] or (bytes(bs), mask, 'it is rendered as %r, which parses back to %r' % (txt.decode('latin1'), got))
+            elif mask is not None and [1 if m_ else 0 for m_ in bytes(mout.b)] != [1 if m_ else 0 for m_ in mask]:
+                r6['bad'] = r6['bad'] or (bytes(bs), mask, 'with mask %s it is rendered as %r, which parses back with mask %s' % (list(mask), txt.decode('latin1'), list(bytes(mout.b))))
+            else:
+                r6['ok'] += 1
+        if Pfull is None:
+            ctx.undecided(R, 'round-trip', P, 'parse_data_string(const std::string&, std::string*, uint64_t) not found')
+        else:
+            from peval import Thrown
+            reps = [0x00, 0x01, 0x09, 0x0A, 0x0D, 0x1F, 0x20, 0x21, 0x22, 0x27, 0x2F, 0x30, 0x39, 0x3C, 0x3F, 0x41, 0x46, 0x5C, 0x61, 0x66, 0x7E, 0x7F, 0x80, 0xFF]
+            for fl_ in (0, skip_flag):
+                for b in range(256):
+                    round_trip([b], None, fl_)
+                pairs = [(a_, b_) for a_ in (range(256) if ctx.tier == 'thorough' and fl_ == 0 else reps) for b_ in (range(256) if ctx.tier == 'thorough' and fl_ == 0 else reps)]
+                for a_, b_ in pairs:
+                    round_trip([a_, b_], None, fl_)
+                for a_ in reps[::3]:
+                    for b_ in reps[1::3]:
+                        for c_ in reps[2::3]:
+                            round_trip([a_, b_, c_], None, fl_)
+                for bs in ([0x41], [0x00], [0x41, 0x42], [0x00, 0x41], [0x41, 0x42, 0x43], [0x00, 0x01, 0x02], [0x41, 0x00, 0x42], [0x22, 0x41, 0x5C]):
+                    for m_ in range(1 << len(bs)):
+                        round_trip(bs, [0xFF if (m_ >> i_) & 1 else 0 for i_ in range(len(bs))], fl_)
+                    # "enabled" is any non-zero mask byte: runs of differing non-zero values carry no toggle
+                    for vals_ in ((0x01, 0xFF, 0x80), (0xFF, 0x01, 0x00), (0x80, 0x00, 0x01), (0x01, 0x01, 0xFF), (0x00, 0x7F, 0xFF)):
+                        round_trip(bs, list(vals_[:len(bs)]), fl_)
+            if r6['und']:
+                ctx.undecided(R, 'round-trip', Pfull, 'formatter / parser could not be evaluated (%s)' % r6['und'])
+            elif r6['bad']:
+                ctx.bad(R, 'round-trip', Pfull, 'data string %r: %s' % (r6['bad'][0], r6['bad'][2]))
+            else:
+                ctx.ok(R, 'round-trip', Pfull, 'parse_data_string(format_data_string(x)) == x (and the mask) for %d byte strings: all single bytes, pairs and triples over class representatives, every mask of up to 3 positions, with and without SKIP_STRINGS' % r6['ok'])
+        r6_decides = Pfull is not None and not r6['und'] and not r6['bad']
+    if r6_decides:
+        # the per-byte tables and the mask-toggle emission are what this evaluation exercises (every
+        # single byte in both forms, every mask of up to three positions): a structural mismatch in
+        # R1 / R2 is then another way of writing the same formatter / parser
+        ctx.defer({'C09-R1', 'C09-R2'}, 'C09-R6', only=lambda k_: 'mask-read-as-truth' not in k_)
+
+
     def fmt_bytes(bs, flags=0):
         try:
             r = PE.call_with(F, [Lit(bytes(bs)), len(bs), None, flags])
@@ -223,65 +291,6 @@ def run(ctx):
     ctx.check(toggles == [b'"?"'], R, 'quoted|mask-toggle', q_loop, 'mask change is rendered as "?" (close quote, toggle, open quote)', 'mask toggle in the quoted form is %s' % toggles)
     quotes = [int_value(x['inner'][2]) for x in stmts_of(q_branch) if strip(x).get('kind') == 'CXXOperatorCallExpr' and call_name(strip(x)) == 'operator+='] if q_branch.get('kind') == 'CompoundStmt' else []
     ctx.check(quotes == [34, 34], R, 'quoted|delimiters', q_branch, 'text is wrapped in double quotes', 'quoted form delimiters are %s' % quotes)
-
-    # ---- R6 round trip by evaluation (E-TABLE): the text the formatter produces for a byte string is
-    with ctx.section('C09-R6', 'C09'):
-        # parsed back to that byte string (and, with a mask, to that mask) - all single bytes, all pairs
-        # over class representatives (all 65536 pairs in the thorough tier), masks over every position
-        R = 'C09-R6'
-        Pfull = next((f_ for f_ in u.func('phosg::parse_data_string') if len(params_of(f_)) == 3 and body_of(f_) is not None and 'char' not in (qtype(params_of(f_)[0]) or '').split('basic_string')[0].split('string')[0]), None)
-        Fmask = F
-        r6 = {'ok': 0, 'bad': None, 'und': None}
-
-        def round_trip(bs, mask=None, flags=0):
-            if r6['und']:
-                return
-            try:
-                r = PE.call_with(Fmask, [Lit(bytes(bs)), len(bs), Lit(bytes(mask)) if mask is not None else None, flags])
-                txt = bytes(r.b)
-                mout = Str() if mask is not None else None
-                back = PE.call_with(Pfull, [Str(txt), mout, 0])
-            except Fault as e:
-                r6['bad'] = r6['bad'] or (bytes(bs), mask, 'evaluation faults: %s' % e)
-                return
-            except Thrown as e:
-                r6['bad'] = r6['bad'] or (bytes(bs), mask, 'the parser throws on the formatter\'s own text (%s)' % e)
-                return
-            except Undecided as e:
-                r6['und'] = str(e)
-                return
-            got = bytes(back.b) if isinstance(back, Str) else None
-            if got != bytes(bs):
-                r6['bad'] = r6['bad'] or (bytes(bs), mask, 'it is rendered as %r, which parses back to %r' % (txt.decode('latin1'), got))
-            elif mask is not None and [1 if m_ else 0 for m_ in bytes(mout.b)] != [1 if m_ else 0 for m_ in mask]:
-                r6['bad'] = r6['bad'] or (bytes(bs), mask, 'with mask %s it is rendered as %r, which parses back with mask %s' % (list(mask), txt.decode('latin1'), list(bytes(mout.b))))
-            else:
-                r6['ok'] += 1
-        if Pfull is None:
-            ctx.undecided(R, 'round-trip', P, 'parse_data_string(const std::string&, std::string*, uint64_t) not found')
-        else:
-            from peval import Thrown
-            reps = [0x00, 0x01, 0x09, 0x0A, 0x0D, 0x1F, 0x20, 0x21, 0x22, 0x27, 0x2F, 0x30, 0x39, 0x3C, 0x3F, 0x41, 0x46, 0x5C, 0x61, 0x66, 0x7E, 0x7F, 0x80, 0xFF]
-            for fl_ in (0, skip_flag):
-                for b in range(256):
-                    round_trip([b], None, fl_)
-                pairs = [(a_, b_) for a_ in (range(256) if ctx.tier == 'thorough' and fl_ == 0 else reps) for b_ in (range(256) if ctx.tier == 'thorough' and fl_ == 0 else reps)]
-                for a_, b_ in pairs:
-                    round_trip([a_, b_], None, fl_)
-                for a_ in reps[::3]:
-                    for b_ in reps[1::3]:
-                        for c_ in reps[2::3]:
-                            round_trip([a_, b_, c_], None, fl_)
-                for bs in ([0x41], [0x00], [0x41, 0x42], [0x00, 0x41], [0x41, 0x42, 0x43], [0x00, 0x01, 0x02], [0x41, 0x00, 0x42], [0x22, 0x41, 0x5C]):
-                    for m_ in range(1 << len(bs)):
-                        round_trip(bs, [0xFF if (m_ >> i_) & 1 else 0 for i_ in range(len(bs))], fl_)
-            if r6['und']:
-                ctx.undecided(R, 'round-trip', Pfull, 'formatter / parser could not be evaluated (%s)' % r6['und'])
-            elif r6['bad']:
-                ctx.bad(R, 'round-trip', Pfull, 'data string %r: %s' % (r6['bad'][0], r6['bad'][2]))
-            else:
-                ctx.ok(R, 'round-trip', Pfull, 'parse_data_string(format_data_string(x)) == x (and the mask) for %d byte strings: all single bytes, pairs and triples over class representatives, every mask of up to 3 positions, with and without SKIP_STRINGS' % r6['ok'])
-        r6_decides = Pfull is not None and not r6['und'] and not r6['bad']
 
     # ---- R2 hex form
     with ctx.section('C09-R2', 'C09'):
